@@ -40,6 +40,23 @@ def main():
             for ed in v["edits"]:
                 path = os.path.join(REPO, ed["file"])
                 src = open(path).read()
+                if "rename" in ed:
+                    # rename a local inside one function: text from fn_start to the end of that item
+                    import re
+                    i = src.find(ed["fn_start"])
+                    if i < 0 or src.count(ed["fn_start"]) != 1:
+                        print(f"{v['id']}: SKIP-BROKEN fn_start occurs {src.count(ed['fn_start'])}x")
+                        raise KeyError
+                    indent = len(src[:i]) - len(src[:i].rstrip(" "))
+                    m = re.search(r"\n" + " " * indent + r"}\n", src[i:])
+                    j = i + m.end()
+                    old, new = ed["rename"]
+                    body, k = re.subn(r"\b" + re.escape(old) + r"\b", new, src[i:j])
+                    if k < 2:
+                        print(f"{v['id']}: SKIP-BROKEN `{old}` occurs {k}x in the function")
+                        raise KeyError
+                    open(path, "w").write(src[:i] + body + src[j:])
+                    continue
                 if src.count(ed["find"]) != ed.get("count", 1):
                     print(f"{v['id']}: SKIP-BROKEN find string occurs {src.count(ed['find'])}x in {ed['file']}")
                     raise KeyError
